@@ -534,6 +534,10 @@ func init() {
 		Assumptions: []string{seqAssumption, "continue_running_tasks_after_failure is deliberately read from the current definition by the code and is not in the property's list: task failures are not injected in reload histories"},
 		Cases:       func(t string) int { return tierN(t, 1500, 36000) },
 		RunCase: func(c *CaseCtx) *CaseResult {
+			if c.Idx%50 == 29 {
+				// failure handling is part of what a job was accepted with: allow_failure switched off / task removed by a reload
+				return simpleCase(c, drv.RunReloadAllowFailureCase(c.Seed, c.Idx/50), 10)
+			}
 			o := admissionOpts(c.Idx + 13)
 			o.NPipes = 1 + c.Idx%3
 			o.Classes = classesFor(c.Idx, o.NPipes)
